@@ -70,7 +70,7 @@ def one(src, name):
 
 def main():
     src = sys.argv[1]
-    names = sys.argv[2:] or sorted(n for n in os.listdir(src) if re.match(r"^C\d+-\d+b?$", n) and os.path.exists(os.path.join(src, n, "patch.diff")))
+    names = sys.argv[2:] or sorted(n for n in os.listdir(src) if re.match(r"^C\d+-\d+[bc]?$", n) and os.path.exists(os.path.join(src, n, "patch.diff")))
     with ThreadPoolExecutor(max_workers=3) as ex:
         for meta in ex.map(lambda n: one(src, n), names):
             name = meta["id"]
